@@ -52,6 +52,7 @@ import (
 	"os"
 	"runtime"
 	"slices"
+	"sync"
 	_ "unsafe"
 
 	"golang.org/x/tools/go/ssa"
@@ -93,6 +94,7 @@ type interpreter struct {
 	initState          map[*ssa.Package]int // 0 = not run, 1 = running, 2 = done
 	stubs              map[string]value     // callee name -> harness stub function
 	goexit             bool
+	envPool            []map[ssa.Value]value
 }
 
 type deferred struct {
@@ -511,7 +513,12 @@ func callSSA(i *interpreter, caller *frame, callpos token.Pos, fn *ssa.Function,
 		panic("interp requires ssa.BuilderMode to include InstantiateGenerics to execute generics")
 	}
 
-	fr.env = make(map[ssa.Value]value)
+	if n := len(i.envPool); n > 0 {
+		fr.env = i.envPool[n-1]
+		i.envPool = i.envPool[:n-1]
+	} else {
+		fr.env = make(map[ssa.Value]value)
+	}
 	fr.block = fn.Blocks[0]
 	fr.locals = make([]value, len(fn.Locals))
 	for i, l := range fn.Locals {
@@ -527,10 +534,12 @@ func callSSA(i *interpreter, caller *frame, callpos token.Pos, fn *ssa.Function,
 	for fr.block != nil {
 		runFrame(fr)
 	}
-	// Destroy the locals to avoid accidental use after return.
-	for i := range fn.Locals {
-		fr.locals[i] = bad{}
+	// (locals may be referenced after return through escaped addresses: keep them)
+	if len(fr.env) <= 64 && i.sch != nil && i.sch.nthreads == 1 {
+		clear(fr.env)
+		i.envPool = append(i.envPool, fr.env)
 	}
+	fr.env = nil
 	return fr.result
 }
 
@@ -682,4 +691,23 @@ func doRecover(caller *frame) value {
 		}
 	}
 	return iface{}
+}
+
+var envSizes sync.Map // *ssa.Function -> int
+
+// envSize is the number of SSA values a frame of fn can hold (map pre-sizing).
+func envSize(fn *ssa.Function) int {
+	if n, ok := envSizes.Load(fn); ok {
+		return n.(int)
+	}
+	n := len(fn.Params) + len(fn.FreeVars) + len(fn.Locals)
+	for _, b := range fn.Blocks {
+		for _, in := range b.Instrs {
+			if _, ok := in.(ssa.Value); ok {
+				n++
+			}
+		}
+	}
+	envSizes.Store(fn, n)
+	return n
 }
